@@ -76,7 +76,13 @@ struct Mat {
 }
 
 fn materialise(c: &Case) -> Mat {
-    let orig: Vec<Vec<Vec<u8>>> = c.samples.iter().map(|s| gen::materialise_recs(s, c.k)).collect();
+    let mut orig: Vec<Vec<Vec<u8>>> = c.samples.iter().map(|s| gen::materialise_recs(s, c.k)).collect();
+    // construction instead of rejection: a sample without any window gets one extra record
+    for (si, s) in orig.iter_mut().enumerate() {
+        if s.iter().all(|r| model::windows(r, c.k).is_empty()) && (si + c.k / 2) % 6 != 0 {
+            s.push((0..c.k + 2 + si).map(|i| model::BASES[(i * i + i / 3 + si) % 4]).collect());
+        }
+    }
     let mut trans = Vec::new();
     let mut rec_no = 0usize;
     for s in &orig {
